@@ -45,14 +45,14 @@ def run_cases(rec, tier, seed):
     # larger / sparser arrays: the row-scan construction strategy needs >= 5 distinct values and few uncommon cells
     n_big = 70 if tier == "quick" else 1500
     for _ in range(n_big):
-        rows = rnd.choice([80, 120, 200, 400])
+        rows = rnd.choice([80, 120, 200, 400, 400, 1000])      # (the row-scan strategy needs well under 5 % uncommon cells)
         ndim = rnd.choice([1, 1, 2])
         cols = rnd.choice([1, 2, 3])
         shape = (rows,) if ndim == 1 else (rows, cols)
         U = rnd.choice([[0, 1, 2, 3, 4, 5], [7, 255, 256, 65535, 65536, 3], [-3, -1, 0, 1, 2, 9],
                         [0, 1, 2, 3, 4, 5, 6, 7, 8, 9, 10, 11], [0, 2 ** 31, 2 ** 40, 5, 6, 7]])
         fav = rnd.choice(U)
-        p = rnd.choice([0.01, 0.03, 0.08, 0.3])
+        p = rnd.choice([0.004, 0.01, 0.01, 0.03, 0.08, 0.3])
         flat = [fav] * int(np.prod(shape))
         for v in U:                                   # make sure every value occurs at least once
             flat[rnd.randrange(len(flat))] = v
@@ -64,9 +64,9 @@ def run_cases(rec, tier, seed):
         common = rnd.choice([None, None, fav, rnd.choice(U), max(U) + 1])
         mapping = None
         r = rnd.random()
-        if r < 0.25:
+        if r < 0.3:
             mapping = {v: v + 1 for v in vals}
-        elif r < 0.5:
+        elif r < 0.65:
             tg = rnd.sample(range(0, 50), 3)
             mapping = {v: rnd.choice(tg) for v in vals}
             if rnd.random() < 0.5:
